@@ -272,6 +272,33 @@ int main()
         }
         std::cout << res << " |" << draws << std::endl;
       }
+      else if (c == "decrossa")
+      {
+        // i_de::crossover with ALIASED operands: <alias> = four digits, equal digits = the same C++ object in those roles.
+        // recombination::de picks a and b independently, so they may be the very same individual of the population.
+        const std::string al(next());
+        const double p(dbl(next()));
+        const double flo(dbl(next())), fhi(dbl(next()));
+        const std::size_t n(std::stoul(next()));
+        std::vector<i_de> obj;
+        for (int r(0); r < 4; ++r)
+        {
+          const unsigned age(std::stoul(next()));
+          std::vector<double> g;
+          for (std::size_t i(0); i < n; ++i) g.push_back(dbl(next()));
+          obj.push_back(make_de(g, age));
+        }
+        // the line lists target, a, b, c; roles sharing a digit of <alias> are served by ONE object (the first such role's)
+        auto pick = [&](std::size_t r) -> const i_de & { return obj.at(al.find(al.at(r))); };
+        const i_de &t(pick(0)), &a(pick(1)), &b(pick(2)), &cc(pick(3));
+        std::string res;
+        {
+          logging l;
+          const i_de x(t.crossover(p, {flo, fhi}, a, b, cc));
+          res = show(x) + (x.is_valid() ? "" : " INVALID");
+        }
+        std::cout << res << " |" << draws << std::endl;
+      }
       else if (c == "garun")
       {
         // in situ: the operators as evolution_recombination.tcc / ga_search use them.
